@@ -675,15 +675,14 @@ class Sequence(ExprList, SeqDomain):
             y.append(expr(0))
 
             for m, b1 in enumerate(b):
-                try:
+                # The input is zero before the first sample.
+                if n - m >= 0:
                     y[-1] += b1 * x[n - m] / a0
-                except:
-                    pass
 
             yn = y[-1]
             for m, a1 in enumerate(a[1:]):
                 try:
-                    yn += a1 * y[-m - 2] / a0
+                    yn -= a1 * y[-m - 2] / a0
                 except:
                     pass
             y[-1] = yn
@@ -702,8 +701,10 @@ class Sequence(ExprList, SeqDomain):
         if self.isempty or h.isempty:
             return self.__class__(())
 
-        Lx = x.extent
-        Lh = h.extent
+        # Use the lengths (not the extents) so that zeros at the start
+        # of h delay the result.
+        Lx = len(x)
+        Lh = len(h)
         Ly = Lx + Lh - 1
 
         if mode == 'full':
